@@ -39,7 +39,7 @@ def run(chk, replay=None):
             progs.append(Prog(open(os.path.join(ex, f)).read(), [], "example/" + f))
     progs += corelib.gen_programs(chk, 40 if quick else 400, "gdet", size=40, allow_params=False)
     # large programs: encodings of several KiB up to ~100 KiB (output buffering, pipe writes), with many tracked calls
-    for n in ((70, 350) if quick else (70, 200, 350, 1200, 4000)):
+    for n in ((70, 350) if quick else (70, 200, 350, 1200)):
         body = " ".join("assert!(jet::eq_32(%d, %d)); let v%d: u32 = dbg!(%d);" % (k, k, k, k) for k in range(n))
         progs.append(Prog("fn main() { %s }" % body, [], "large/%d" % n))
     progs += [Prog("fn main() { let x: u8 = y; }", [], "bad/undefined"), Prog("fn main() {", [], "bad/grammar"), Prog("", [], "bad/empty")]
@@ -64,7 +64,7 @@ def run(chk, replay=None):
                 tf.write(g.text)
                 path = tf.name
             try:
-                p = subprocess.run([simc, path] + (["--debug"] if dbg else []), stdout=subprocess.PIPE, stderr=subprocess.PIPE, timeout=120)
+                p = subprocess.run(["bash", "-c", "ulimit -s unlimited 2>/dev/null; exec \"$0\" \"$@\"", simc, path] + (["--debug"] if dbg else []), stdout=subprocess.PIPE, stderr=subprocess.PIPE, timeout=600)
             finally:
                 os.unlink(path)
             out = p.stdout.decode("utf-8", "replace")
